@@ -135,7 +135,7 @@ def small_subjects(alpha, maxlen):
 def tie_cases(ck, tier):
     """[(context, syntax, scanner-op, prefix, subject, suffix)]"""
     rng = ck.rng
-    n = 260 if tier == "quick" else 6000
+    n = 260 if tier == "quick" else 4000
     cases = []
 
     def add(ctx, op, syns, prefix, subjects, suffix):
@@ -208,7 +208,11 @@ def run_tie(ck, pool, tier):
             lines.append("ping")
     outs = driver(lines)
     jobs = [compile_job(pre + sub + suf, syntax=syn, quiet=True) for ctx, syn, op, pre, sub, suf in cases]
-    answers = g.run_many(pool, jobs, timeout=5.0)
+    answers = []
+    for off in range(0, len(jobs), 20000):
+        part = g.run_many(pool, jobs[off:off + 20000], timeout=5.0)
+        # keep only what the comparison needs
+        answers += [{k: a.get(k) for k in ("status", "err", "panic", "why", "display", "css") if k in a} for a in part]
     span_checks = []
     for k, ((ctx, syn, op, pre, sub, suf), ans) in enumerate(zip(cases, answers)):
         src = pre + sub + suf
@@ -338,7 +342,7 @@ def run_span_checks(ck, span_checks):
         if o != "ok 1":
             job, ans = span_checks[k]
             ck.failures.append({"tag": "span-outside-file", "detail": f"spanInFile fails: {o} {ans['err']}", "job": job, "stream": "span"})
-    ck.cov["span_checks"] = len(lines)
+    ck.cov["span_checks"] = ck.cov.get("span_checks", 0) + len(lines)
 
 
 # --------------------------------------------------------------------------------------------
@@ -353,6 +357,7 @@ CORPUS = [
     ("a\n /*\n", {"syntax": "sass"}),                  # F4 panic@parse/sass.rs:295
     ('a{b:selector-extend("a", ">", "b")}', {"syntax": "scss"}),   # F5 panic@selector/complex.rs:340
     (':is(a,>){@extend a}', {"syntax": "scss"}),       # F5, through @extend
+    ('a{b:simple-selectors(">")}', {"syntax": "scss"}),            # F6 panic@builtin/functions/selector.rs:44
     ("/]/*#*[", {"syntax": "sass"}),                   # D2 (fixed): looped forever
     ("a{b:clamp(1, 2px, 3em)}", {"syntax": "scss"}),   # D1 (fixed): panicked in Number::convert
     ("$x: \"\"; a#{$x}\u00e9\u00e9\u00e9[ {b: c}", {"syntax": "scss"}),   # D19 (fixed): codemap char boundary
@@ -392,22 +397,25 @@ def search_jobs(ck, tier, cases):
                 for os_ in OPTION_SETS:
                     add("golden-x-config", c["input"], dict(os_, syntax=syn))
     # near-miss mutations
-    for _ in range(2600 if quick else 130000):
+    for _ in range(2600 if quick else 100000):
         c = rng.choice(cases)
         src = c["input"]
         if len(src) > 400:
             continue
         add("mutation", g.mutate(rng, src), with_opts(rng, c["options"].get("syntax") if rng.random() < 0.5 else None))
-    for _ in range(900 if quick else 40000):
+    for _ in range(900 if quick else 30000):
         c = rng.choice(cases)
         if len(c["input"]) > 400:
             continue
         add("mutation-indented", g.mutate(rng, g.to_sass_guess(c["input"])), with_opts(rng, "sass"))
     # token soup
-    for _ in range(1500 if quick else 70000):
+    for _ in range(1500 if quick else 50000):
         add("token-soup", g.token_soup(rng), with_opts(rng))
     for _ in range(500 if quick else 20000):
         add("token-soup-mutated", g.mutate(rng, g.token_soup(rng)), with_opts(rng))
+    # built-in functions with hostile arguments (evaluator)
+    for _ in range(1500 if quick else 60000):
+        add("builtin-calls", g.builtin_call(rng), {"syntax": "scss", "style": rng.choice([None, "compressed"])})
     # unusual Unicode, NUL
     for _ in range(500 if quick else 20000):
         c = rng.choice(cases)
@@ -418,7 +426,7 @@ def search_jobs(ck, tier, cases):
         add("unusual-chars", s, with_opts(rng))
     # truncation at every prefix of small programs
     small = [c for c in cases if len(c["input"]) <= (90 if quick else 160)]
-    for c in rng.sample(small, min(len(small), 200 if quick else 1500)):
+    for c in rng.sample(small, min(len(small), 200 if quick else 600)):
         syn = c["options"].get("syntax", "scss")
         for p in g.prefixes(c["input"]):
             add("prefix", p, {"syntax": syn})
@@ -434,6 +442,13 @@ def search_jobs(ck, tier, cases):
         files, entry = g.wrap_import(rng, src, syn)
         o = with_opts(rng, "scss")
         jobs.append(("via-import", compile_job(None, files=files, entry=entry, **o)))
+    # import / module cycles (must be errors, not unbounded recursion)
+    for files, entry in [({"a.scss": '@import "a";'}, "a.scss"), ({"a.scss": '@use "a";'}, "a.scss"), ({"a.scss": '@forward "a";'}, "a.scss"),
+                         ({"a.scss": '@import "b";', "b.scss": '@import "a";'}, "a.scss"), ({"a.scss": '@use "b";', "b.scss": '@use "a";'}, "a.scss"),
+                         ({"a.scss": 'a{@import "a";}'}, "a.scss"), ({"a.scss": '@use "b";', "b.scss": '@forward "a";'}, "a.scss"),
+                         ({"a.sass": '@import "a"\n'}, "a.sass"), ({"a.scss": '@use "sass:meta" as m; a{@include m.load-css("a")}'}, "a.scss"),
+                         ({"a.scss": '@import "b.css";', "b.css": '@import "a";'}, "a.scss")]:
+        jobs.append(("import-cycle", compile_job(None, files=files, entry=entry, quiet=True)))
     for _ in range(300 if quick else 10000):
         c = rng.choice(cases)
         b = g.non_utf8(rng, c["input"][:200])
@@ -478,18 +493,19 @@ def tag_of_answer(ans):
     return None
 
 
-def excluded_unbounded(pool, f):
-    """A timeout/abort is outside the property when the program has loops/recursion of its own and the
-    same text, parsed but not evaluated (inside `@if false`), terminates."""
-    job = f["job"]
+def loopy(job):
     src = job.get("input")
-    if src is None or not _LOOPY.search(src):
-        return False
-    w = wrap_unevaluated(job)
-    if w is None:
-        return False
-    a = pool.map([w], timeout=5.0)[0]
-    return a.get("status") in ("ok", "err")
+    return src is not None and bool(_LOOPY.search(src)) and job.get("options", {}).get("syntax", "scss") != "css"
+
+
+def split_excluded(pool, fs):
+    """A timeout/abort is outside the property when the program has loops/recursion of its own and the
+    same text, parsed but not evaluated (inside `@if false`), terminates.  -> (kept, n_excluded)"""
+    cand = [f for f in fs if loopy(f["job"])]
+    wrapped = [wrap_unevaluated(f["job"]) for f in cand]
+    answers = pool.map(wrapped, timeout=10.0) if wrapped else []
+    excluded = {id(f) for f, a in zip(cand, answers) if a.get("status") in ("ok", "err")}
+    return [f for f in fs if id(f) not in excluded], len(excluded)
 
 
 def shrink(pool, f):
@@ -517,13 +533,9 @@ def judge_failures(ck, pool):
     for tag, fs in groups.items():
         fs.sort(key=lambda f: len(job_text(f["job"])))
         if tag in ("timeout", "abort"):
-            kept = []
-            for f in fs[:40]:
-                if excluded_unbounded(pool, f):
-                    ck.hist(f"excluded:{tag}-in-evaluation-of-a-program-with-its-own-loops/recursion")
-                else:
-                    kept.append(f)
-            fs = kept
+            fs, nex = split_excluded(pool, fs)
+            if nex:
+                ck.hist(f"excluded:{tag}-in-evaluation-of-a-program-with-its-own-loops/recursion", nex)
             if not fs:
                 continue
         ck.hist(f"failures:{tag}", len(fs))
@@ -558,10 +570,14 @@ def run(tier, seed):
         "is attributed to the program, not to grass (the property covers evaluation only for bounded programs)",
         "byte spans are reconstructed from codemap's (line, column): lines split on LF, columns count characters",
     ]
+    import time
+    t0 = time.time()
     ck.do_prove(cores=("lex",))
     if not ck.do_build_runner():
         ck.unproved("correspondence-broken", {"why": "runner does not build against /repo", "error": getattr(ck, "build_error", "")})
         return ck.finish()
+    phases = {"prove+build_s": round(time.time() - t0, 1)}
+    ck.cov["phase_wall"] = phases
     pool = RunnerPool()
     cases, _ = corpus.load()
 
@@ -576,17 +592,26 @@ def run(tier, seed):
         else:
             ck.notes.append(f"known finding {k['id']} is stale: its witness now gives status {a.get('status')}")
 
+    t0 = time.time()
     span_checks = run_tie(ck, pool, tier)
+    phases["tie_s"] = round(time.time() - t0, 1)
+    t0 = time.time()
 
     sj = search_jobs(ck, tier, cases)
-    answers = g.run_many(pool, [j for _, j in sj], timeout=2.0)
-    for (stream, job), ans in zip(sj, answers):
-        ck.count(("search", stream, job_text(job), job.get("options")), True)
-        ck.hist("stream:" + stream)
-        check_answer(ck, job, ans, span_checks, stream)
-        if len(ck.cov["samples"]) < 8 and ans.get("status") == "err" and stream in ("mutation", "token-soup"):
-            ck.sample({"stream": stream, "source": job_text(job)[:120], "options": job.get("options"), "status": "err",
-                       "message": ans.get("err", {}).get("message")})
+    CH = 20000                      # answers are judged and dropped chunk by chunk (memory)
+    for off in range(0, len(sj), CH):
+        part = sj[off:off + CH]
+        answers = g.run_many(pool, [j for _, j in part], timeout=2.0, no_confirm=loopy)
+        for (stream, job), ans in zip(part, answers):
+            ck.count(("search", stream, job_text(job), job.get("options")), True)
+            ck.hist("stream:" + stream)
+            check_answer(ck, job, ans, span_checks, stream)
+            if len(ck.cov["samples"]) < 8 and ans.get("status") == "err" and stream in ("mutation", "token-soup"):
+                ck.sample({"stream": stream, "source": job_text(job)[:120], "options": job.get("options"), "status": "err",
+                           "message": ans.get("err", {}).get("message")})
+        run_span_checks(ck, span_checks)
+        del span_checks[:]
+        log(f"[C01] search {min(off + CH, len(sj))}/{len(sj)} failures so far: {len(ck.failures)}")
     # deep nesting: own, generous watchdog
     dj = deep_jobs(tier)
     dres = pool.map([j for *_, j in dj], timeout=30.0 if tier == "quick" else 120.0)
@@ -601,7 +626,10 @@ def run(tier, seed):
     ck.cov["beyond_nesting_bound"] = {k: sorted(v) for k, v in beyond.items()}
 
     run_span_checks(ck, span_checks)
+    phases["search_s"] = round(time.time() - t0, 1)
+    t0 = time.time()
     judge_failures(ck, pool)
+    phases["judge+shrink_s"] = round(time.time() - t0, 1)
 
     unknown = [v for v in ck.violations]
     if ck.cov["model_disagreements"] and not unknown:
